@@ -21,6 +21,7 @@ PARTS += ["segindex"]
 PARTS += ["utilint"]      # mir_eval/util.py interval pre-processing -> MirGen/UtilInt.lean (C13)
 PARTS += ["multipitch"]   # mir_eval/multipitch.py count functions, resampling, metrics -> MirGen/Multipitch.lean (C18)
 PARTS += ["evglue"]       # event-metric glue: util.match_events / _fast_hit_windows, onset / beat F, segment.detection / deviation -> MirGen/EvGlue.lean (C04)
+PARTS += ["trmatch"]      # transcription.match_note_onsets / _offsets / match_notes + the three P/R/F functions -> MirGen/TrMatch.lean (C05, C04)
 
 
 def write_if_changed(path, text):
